@@ -228,6 +228,12 @@ fn check_text(src: &str, strict: bool) -> Out {
 
 fn finish(src: &str, mode: &str, extra: Option<&str>, cx: &Cx) -> CaseResult {
     let hash = hash64(src.as_bytes());
+    if cx.dry {
+        let mut r = CaseResult::discard("dry");
+        r.render = Some(json!({"text": src}));
+        r.direct = Some(json!({"text": src}));
+        return r;
+    }
     let o = check_text(src, cx.strict || !cx.excluded(KF_HEADER));
     let mut r = match &o.fail {
         Some((s, m)) => CaseResult::fail(hash, s.clone(), m.clone()),
